@@ -17,8 +17,10 @@ func init() {
 			"(R3) a version is counted as 'remaining valid' only if it is neither the dev version nor blacklisted, Blacklisted is set only when more than one valid version remains, and selection is re-run afterwards; " +
 			"(R4) purge bookkeeping: the versions kept are Versions[:boundary] and the files removed are those of Versions[boundary:], the stable version is recognised by the same PreRelease flag the selection uses, keepExtra has the floor 2, purging pauses while a blacklisted version exists; " +
 			"(R5) no write to a map that is definitely nil. " +
+			"(R6) lock pairing over the functions of package(s) updater: " + lockRuleText + ". " +
 			"NOT decided: correctness over all version multisets, semantic-version ordering, the file-name regexes.",
-		Rules: []ruleFn{c19R1, c19R2, c19R3, c19R4, c19R5},
+		Rules: []ruleFn{c19R1, c19R2, c19R3, c19R4, c19R5,
+			lockRuleFor("C19-R6", 20, []string{"updater"}, []string{}, map[string]string{"updater.(*RegistryState).StartOperation / s.operationLock": "StartOperation/EndOperation bracket an updater operation; EndOperation releases operationLock"})},
 	})
 }
 
